@@ -228,6 +228,78 @@ def escape(chk, facts):
     chk.floor(rule, "program strings written", n, 4)
 
 
+UNICODE_CHAR_PREDICATES = ("is_alphabetic", "is_alphanumeric", "is_numeric", "is_lowercase", "is_uppercase", "is_whitespace", "is_control")
+
+
+def ident_guard(chk, facts):
+    """The guard under which a name is printed bare must accept only what the lexer reads back as one identifier:
+    is_normalized_ident decides with the grammar's own IDENTIFIER pattern (anchored) and excludes the reserved words."""
+    from lib import grammar
+    rule = "C05.ESCAPE.ident"
+    f = get_fn(chk, facts, rule, "cedar_policy_core::ast::name::is_normalized_ident")
+    if f is None:
+        return
+    g = grammar.load()
+    want = g["regex"].get("IDENTIFIER")
+    pats = []
+    for b, t in f.calls():
+        if callee(t).endswith("Regex::is_match"):
+            prod = panics.producer(f, t[2][0])
+            if prod.startswith("static:"):
+                st = prod[len("static:"):]
+                for cl in facts.closures_of(st):
+                    if any(callee(t2).endswith("Regex::new") for _, t2 in cl.calls()):
+                        pats += [s_[2][1][1]["s"] for _, s_ in cl.stmts() if s_[0] == "a" and s_[2][0] == "use" and s_[2][1][0] == "k" and "s" in s_[2][1][1]]
+                        pats += [o[1]["s"] for _, t2 in cl.calls() for o in t2[2] if o[0] == "k" and "s" in o[1]]
+    unicode_preds = []
+    ascii_preds = []
+    for body in [f] + facts.closures_of(f.name):
+        for b, t in body.calls():
+            c = callee(t)
+            last = c.split("::")[-1]
+            if "char" in c and last in UNICODE_CHAR_PREDICATES:
+                unicode_preds.append(last)
+            if "char" in c and last.startswith("is_ascii"):
+                ascii_preds.append(last)
+    if pats:
+        ok = want is not None and sorted(set(pats)) == ["^" + want + "$"]
+        det = "decides with the pattern %s; the lexer's IDENTIFIER token is %s" % (sorted(set(pats)), want)
+    elif unicode_preds:
+        ok = False
+        det = "scans characters with the Unicode-aware predicate(s) %s: names the lexer (%s) cannot read back as an identifier are printed bare" % (sorted(set(unicode_preds)), want)
+    elif ascii_preds:
+        ok = True
+        det = "scans characters with ASCII-only predicates %s (agreement with %s beyond the character class is not decided)" % (sorted(set(ascii_preds)), want)
+    else:
+        ok = False
+        det = "neither a pattern equal to the lexer's IDENTIFIER nor an ASCII character scan was found"
+    chk.ob(rule, "pattern", ok, "is_normalized_ident %s" % det, where=f.where(), fn=f.name, key="%s:pattern" % rule, sample={"patterns": sorted(set(pats)), "lexer": want})
+    # reserved words are excluded (they would lex as keywords)
+    res = [(b, t) for b, t in f.calls() if callee(t).endswith("::contains") and "RESERVED_IDS" in panics.producer(f, t[2][0])]
+    neg = any(s_[0] == "a" and s_[2][0] == "un" and s_[2][1] == "Not" for _, s_ in f.stmts())
+    chk.ob(rule, "reserved", bool(res) and neg, "reserved words are excluded (RESERVED_IDS.contains, negated): %s" % (bool(res) and neg), where=f.where(), fn=f.name)
+    # ... and the reserved set covers the grammar's keyword tokens that may not be used as identifiers in expression position
+    ids = set()
+    for cl in facts.closures_of("cedar_policy_core::ast::name::RESERVED_IDS"):
+        for _, s_ in cl.stmts():
+            if s_[0] == "a":
+                _strs(s_[2], ids)
+        for _, t2 in cl.calls():
+            _strs(t2[2], ids)
+    kw = {g["aliases"][k] for k in ("TRUE", "FALSE", "IF", "THEN", "ELSE", "IN", "LIKE", "HAS", "IS") if k in g["aliases"]}
+    chk.ob(rule, "keywords", kw <= ids, "RESERVED_IDS %s contains the grammar's expression keywords %s" % (sorted(ids), sorted(kw)), where=f.where(), fn=f.name, sample={"reserved": sorted(ids)})
+
+
+def _strs(o, out):
+    if isinstance(o, list):
+        if len(o) == 2 and o[0] == "k" and isinstance(o[1], dict):
+            if "s" in o[1]:
+                out.add(o[1]["s"])
+            return
+        for x in o:
+            _strs(x, out)
+
+
 def one_printer(chk, facts):
     """Display / BoundedDisplay of AST expressions convert to EST (est::Builder) and use the EST printer."""
     rule = "C05.ONE-PRINTER"
@@ -252,13 +324,14 @@ def run(chk, facts, tier):
         "variant-qualified label provenance every child of every EST variant reaches a print sink, and later operands are printed after earlier ones (dominance); (PRINT.parens) "
         "every child in operator / receiver position (a position table justified by the grammar) reaches the output only through maybe_with_parens, the left operand of a "
         "left-associative operator may be printed bare only under the same-operator test, maybe_with_parens leaves bare only member-level forms, and the receiver of a method-style "
-        "extension call is parenthesised; (ESCAPE) attribute names written with Display are either escaped or under an is_normalized_ident guard; (ONE-PRINTER) AST Display goes "
+        "extension call is parenthesised; (ESCAPE) attribute names written with Display are either escaped or under an is_normalized_ident guard, and that guard decides with the lexer's own IDENTIFIER pattern (read from grammar.lalrpop) minus the reserved words; (ONE-PRINTER) AST Display goes "
         "through the EST printer; (PRINT.optoken) the token each operator prints as (Display for BinaryOp / UnaryOp), read back through the grammar's operator productions, the lowering to builder methods "
         "(construct_expr_rel, add_nary / mul_nary left folds, to_meth's method-name dispatch) and the derived builder map, builds the same operator with operands in order. Declines sufficiency of the parenthesisation over the whole grammar, `-N` literal folding and the unescaper.")
     chk.assumptions = ["the operand-position table MUST_PARENS / MEMBER_LEVEL in rules/C05.py (from the Cedar grammar's precedence levels)",
                        "label provenance is flow-insensitive per function (variant-qualified seeds)"]
     printer(chk, facts)
     escape(chk, facts)
+    ident_guard(chk, facts)
     one_printer(chk, facts)
     from rules import c05_tokens
     c05_tokens.check(chk, facts)
